@@ -112,7 +112,7 @@ def fail(kind, msg, xml=None, extra=None):
 from kskm.common.config_misc import RequestPolicy
 from kskm.signer.policy import check_last_skr_and_new_skr, check_publish_safety, check_retire_safety
 PREV_RESP = [None]
-ODD_ID_CHARS = ["\u2028", "\u2029", "\u0085", "\u00e9", "\u4e2d", " ", "\u00a0", "\u200b", "\u2028\u2029", ".", "\ufeff", "\U0001f511"]
+ODD_ID_CHARS = ["'", "o'clock '", "''", ";", "#x27;", "\u2028", "\u2029", "\u0085", "\u00e9", "\u4e2d", " ", "\u00a0", "\u200b", "\u2028\u2029", ".", "\ufeff", "\U0001f511"]
 for i in range(30 * SCALE):
     nb = 1 + i % 9
     zsl = [[R.choice(ZS)] + ([R.choice(ZS[:4])] if R.random() < 0.4 else []) for _ in range(nb)]
